@@ -34,6 +34,36 @@ def vec_line(tokens):
     return ["argv"] + [enc(t) for t in tokens]
 
 
+# The millisecond clock is an input of parsing (a seedless -s takes its seed from it): readings the harness stubs it with.
+# A general set: zero, small, the 31 / 32-bit edges, multiples of 2^32 and their neighbours, present-day epoch readings
+# (odd / even), the top of the 64-bit range.  "real": the platform clock.
+CLOCKS = [0, 1, 2, 1000, 2 ** 31 - 1, 2 ** 31, 2 ** 32 - 1, 2 ** 32, 2 ** 32 + 1, 2 ** 32 + 5, 2 ** 33, 3 * 2 ** 32, 417 * 2 ** 32,
+          7 * 2 ** 32 + 123456789, 1790985801269, 1790985801270, 2 ** 63, 2 ** 64 - 2 ** 32, 2 ** 64 - 1]
+CLOCK_P = 0.08          # share of the vectors in front of which the clock is set anew (it stays in force for the vectors that follow)
+
+
+class ClockedVector(list):
+    """An argument vector parsed at a given reading of the clock (decimal text)."""
+    clock = None
+
+
+def lines_of(v, rng=None):
+    """Script lines of one vector: the `clock' line (its own reading, or - now and then - one drawn from CLOCKS) and the `argv' line."""
+    c = getattr(v, "clock", None)
+    if c is None and rng is not None and rng.random() < CLOCK_P:
+        c = rng.choice(["real"] + [str(x) for x in CLOCKS])
+    return ([["clock", c]] if c is not None else []) + [vec_line(v)]
+
+
+def clock_in_force(ex, idx):
+    for ln in reversed(ex[:idx]):
+        if str(ln[0]) == "clock":
+            return None if str(ln[1]) == "real" else str(ln[1])
+        if str(ln[0]) == "reset":
+            break
+    return None
+
+
 def show(tokens_hex):
     out = []
     for h in tokens_hex:
@@ -87,7 +117,9 @@ def make_key_fn(ctx, tcfg_open):
                 ok = False
             if ok:
                 return "reject:selection:lone-exclude-group.name:" + which
-        return ("%s:argv:%s" % (kind, show(ln[1:])))[:150]
+        # the clock is part of the input of a vector with a seedless -s
+        clk = clock_in_force(ex, idx) if "2d73" in ln[1:] else None
+        return ("%s:argv:%s" % (kind, show(ln[1:])))[:150] + ("@clock=%s" % clk if clk else "")
     return key_of
 
 
@@ -280,7 +312,7 @@ def run(ctx):
         nonlocal nexec
         groups = groups or [(probe or probe_line, vectors)]          # (probe registry line, vectors run on it)
         for lab_, want_xt, c in ((label, False, cfg or tcfg), (label + "_xt", True, cfg or tcfg_open)):
-            execs = [[pr] + [vec_line(v) for v in part] for pr, vs in groups
+            execs = [[pr] + [ln for v in part for ln in lines_of(v, ctx.rng)] for pr, vs in groups
                      for part in chunk([v for v in vs if bool(lone_xt(vec_line(v))) == want_xt], per)]
             if not execs:
                 continue
@@ -315,7 +347,9 @@ def run(ctx):
     #      zero, 2^32 and beyond) attached and separated, alone and next to one other token
     gcfg = ctx.write_cfg("Gen_CmdLine_num", GEN % BIG)
     outp = os.path.join(ctx.work, "vecnum.ndjson")
-    ctx.tlc("Gen_CmdLine", gcfg, workers=1, env={"OUT": outp, "PROBE": os.path.join(ctx.work, "probe.ndjson"), "LEN": "num"}, timeout=600, heap="4g", count=False)
+    clkp = os.path.join(ctx.work, "vecclock.ndjson")
+    ctx.tlc("Gen_CmdLine", gcfg, workers=1, env={"OUT": outp, "CLOCKOUT": clkp, "PROBE": os.path.join(ctx.work, "probe.ndjson"), "LEN": "num"},
+            timeout=600, heap="4g", count=False)
     numvec = [[bytes(t) for t in json.loads(l)["tok"]] for l in open(outp) if l.strip()]
     if len(numvec) < 200:
         raise Infra("only %d numeric vectors generated" % len(numvec))
@@ -323,6 +357,22 @@ def run(ctx):
     ctx.rng.shuffle(numvec)
     ex = go("numbers", numvec, per=100)
     ctx.sample({"source": "TLC numeric vectors (Gen_CmdLine, LEN=num)", "execution": [show(l[1:]) for l in ex[0][1:9]]})
+    # ---- leg 2c: the clock as an input, written by TLC: the vectors whose meaning involves the clock (a seedless -s alone, before / after one
+    #      other token, before / after a seeded -s) and the seeded forms, each parsed and run at every clock reading of CmdLineLattice.Clocks
+    clockvec = []
+    for l in open(clkp):
+        if l.strip():
+            row = json.loads(l)
+            v = ClockedVector(bytes(t) for t in row["tok"])
+            v.clock = bytes(row["clock"]).decode()
+            clockvec.append(v)
+    if len(clockvec) < 200 or len({v.clock for v in clockvec}) < 8:
+        raise Infra("only %d clock rows generated" % len(clockvec))
+    ctx.notes["clock_rows"] = {"rows": len(clockvec), "readings": sorted({v.clock for v in clockvec}, key=int)}
+    ctx.rng.shuffle(clockvec)
+    ex = go("clock", clockvec, per=200)
+    ctx.sample({"source": "TLC clock rows (Gen_CmdLine, ClockRows): vector @ clock reading",
+                "execution": ["%s @ %s" % (show(vec_line(v)[1:]), v.clock) for v in clockvec[:8]]})
 
     # ---- leg 2w: the substring meaning of -g -n -t -xg -xn -xt (and the strict forms beside it) on WORDS: the registry holds one test for
     #      every pair of a group word and a name word of <= 4 letters over two letters each (900 tests), the vectors are every filter option
@@ -398,10 +448,12 @@ def run(ctx):
     ctx.notes["order_programs"] = TR.order_leg(ctx, nontrivial)
     return ctx.finish(
         rule="executions = chunks of <= 400 argument vectors, each parsed by the real CommandLineArguments (getters logged) and run through the real "
-             "CommandLineTestRunner on a probe registry (10 tests; the word registry: one test per pair of a group word and a name word of <= 4 letters "
+             "CommandLineTestRunner (recording outputs / registry: the verbosity level and colour every created output holds at the start of every test run, "
+             "test runs started, shuffleTests seeds, crash / rethrow switches; the millisecond clock stubbed with readings chosen by the script) on a probe registry (10 tests; the word registry: one test per pair of a group word and a name word of <= 4 letters "
              "over two letters; seeded random registries built around the filter texts) (ASan+UBSan build, tokens in exact-size heap blocks); "
              "vectors = every filter option with every word / pair of words as text on the word registry (pairs: a seeded sample in the quick tier) + every vector of <= 2 "
-             "tokens over the token alphabet written by TLC + the numeric vectors (-r / -s with every count / seed text, attached and separated) (<= 3 tokens over the reduced alphabet in the thorough tier) + seeded random documented "
+             "tokens over the token alphabet written by TLC + the numeric vectors (-r / -s with every count / seed text, attached and separated) + the clock rows "
+             "(vectors with a seedless -s in every place x every clock reading of the specification) (<= 3 tokens over the reduced alphabet in the thorough tier) + seeded random documented "
              "vectors + seeded random byte vectors; meaning of each vector computed by TLC (Trace_CmdLine); distinct non-trivial = distinct vectors "
              "that were rejected or produced filters",
         distinct_nontrivial=len(nontrivial), exhaustive=False,
@@ -413,6 +465,10 @@ def run(ctx):
                      "selection follows C02's rule per filter list; a lone -xt/-xst is read as the help text states it (exclude tests whose group AND name match); "
                      "where that reading is left open (vectors validated beside the known finding) the tests of which both halves or neither half match are still bound",
                      "memory safety is observed by ASan/UBSan on the executed vectors; plugin arguments (-p<x>) only as 'no plugin accepts them'",
-                     "time-based shuffle seed: any seed > 0 is accepted; order of execution is C02's subject (only run counts are compared)",
+                     "time-based shuffle seed: any seed > 0 is accepted, for every reading of the clock (0, multiples of 2^32, ...); at one (stubbed) reading the "
+                     "runner's parser and the parser read through the getters configure the same seed; order of execution is C02's subject (only run counts are compared)",
+                     "what the run gets is read off recording outputs / a recording registry created through the runner's factory methods: one verbosity level "
+                     "(-vv, with or without -v, is very verbose), colour, number of test runs, the seed of every shuffleTests call, crash / rethrow switches; "
+                     "not bound: the JUnit half of a composite (files), anything but 'nothing starts, nothing is shuffled' in the list modes",
                      "the probe registry is not run for repeat counts above 100 (the configuration is still compared exactly)"],
         extra={"executions": nexec})
